@@ -232,7 +232,10 @@ Section Spec.
 
   Definition spec_convert (v : value) (t : ttype) : outcome value :=
     if isinstance_t v t then Ok v else
-    let s := py_lower O (py_strip (py_str O v)) in
+    match py_str O v with
+    | Raise _ => Raise ConversionErrorC        (* str() refuses an int beyond the digit limit *)
+    | Ok s0 =>
+    let s := py_lower O (py_strip s0) in
     match t with
     | TBool => if zlist_eqb s S_true || zlist_eqb s [49] then Ok (VBool true)
                else if zlist_eqb s S_false || zlist_eqb s [48] then Ok (VBool false)
@@ -242,61 +245,9 @@ Section Spec.
     | TStr => Ok (VStr s)
     | TList => Ok (VList (map (fun it => VStr (py_strip it)) (split_on 44 s)))
     | TDict => let d := dict_of_items (split_on 44 s) in Ok (VDict (map VStr (fst d)) (map VStr (snd d)))
+    end
     end.
 
   Definition has_type (v : value) (t : ttype) : bool := isinstance_t v t.
 
-  (* ---------- known gaps (open findings): the exact regions the _partial theorems exclude -------- *)
-  (* 1 NaN value or NaN bound under Min/Max
-     2 float with a fractional part under IsEnum(IntEnum) whose truncation is the value of a member
-     3 infinite float under IsEnum(IntEnum)
-     4 int beyond the float range under DateTimeUnixTimestamp *)
-  Definition gap_here (w : validator) (v : value) : list Z :=
-    match w with
-    | WMin b _ | WMax b _ => if is_number v && is_number b && (is_nan v || is_nan b) then [1] else []
-    | WIsEnum ms true _ _ =>
-        match v with
-        | VFloat (S754_infinity _) => [3]
-        | VFloat (S754_finite s m e) =>
-            if float_is_integral (S754_finite s m e) then []
-            else match int_of_float (S754_finite s m e) with
-                 | Ok z => match member_of ms (VInt z) with Some _ => [2] | None => [] end
-                 | Raise _ => []
-                 end
-        | _ => []
-        end
-    | WUnix => match v with
-               | VInt z => match float_of_Z z with Raise _ => [4] | Ok _ => [] end
-               | _ => []
-               end
-    | _ => []
-    end.
-
-  (* gaps met while the documented evaluation walks children and items (in evaluation order, up to
-     the first child / item that is not accepted) *)
-  Section GapLoops.
-    Variable g : validator -> value -> list Z.
-    Fixpoint gaps_all (cs : list validator) (v : value) : list Z :=
-      match cs with
-      | [] => []
-      | c :: cs' => g c v ++ match spec c v with SAccept _ => gaps_all cs' v | _ => [] end
-      end.
-    Fixpoint gaps_pipe (cs : list validator) (it : value) : list Z :=
-      match cs with
-      | [] => []
-      | c :: cs' => g c it ++ match spec c it with SAccept r => gaps_pipe cs' r | _ => [] end
-      end.
-  End GapLoops.
-  Fixpoint gaps_items (gp : value -> list Z) (one : value -> verdict) (items : list value) : list Z :=
-    match items with
-    | [] => []
-    | it :: items' => gp it ++ match one it with SAccept _ => gaps_items gp one items' | _ => [] end
-    end.
-
-  Fixpoint gaps (w : validator) (v : value) {struct w} : list Z :=
-    match w with
-    | WComposite cs => gaps_all gaps cs v
-    | WForEach cs => match iter_items v with None => [] | Some items => gaps_items (gaps_pipe gaps cs) (pipe spec cs) items end
-    | _ => gap_here w v
-    end.
 End Spec.
